@@ -108,7 +108,7 @@ PROPS = {
     'C04': {
         'props': 'Props/C04.v',
         'suites': [{'name': 'route', 'oracles': {'route': 'o_route'}, 'trivial_tags': ['live-0'], 'vm_sample': 40},
-                   {'name': 'cluster', 'oracles': {'cluster': 'o_cluster'}, 'trivial_tags': ['nodes-1', 'nodes-2'], 'vm_sample': 10, 'sigs': ['pool-set-or-pool-role-differs-from-latest-valid-description']},
+                   {'name': 'cluster', 'oracles': {'cluster': 'o_cluster'}, 'trivial_tags': ['nodes-1', 'nodes-2'], 'vm_sample': 10, 'sigs': ['pool-set-or-pool-role-differs-from-latest-valid-description', 'slot-owner-inconsistent-with-adopted-topology', 'topology-after-ticker-differs-from-latest-valid-description']},
                    {'name': 'loop', 'oracles': {'loop': 'o_loop'}, 'trivial_tags': ['plain'], 'vm_sample': 6, 'sigs': ['request-delivered-to-a-node-that-does-not-own-the-slot', 'connection-to-removed-node-left-open', 'event-loop-stopped']},
                    {'name': 'replicas', 'oracles': {'loop': 'o_loop'}, 'trivial_tags': [], 'vm_sample': 4,
                     'sigs': ['request-delivered-to-a-node-that-does-not-own-the-slot', 'replica-connection-used-without-readonly', 'reply-does-not-belong-to-the-request-at-its-position', 'request-never-answered-and-connection-left-open', 'more-replies-than-requests', 'backend-received-bytes-that-are-not-requests', 'event-loop-stopped']}],
@@ -172,7 +172,7 @@ PROPS = {
     },
     'C03': {
         'props': 'Props/C03.v',
-        'suites': [{'name': 'loop', 'oracles': {'loop': 'o_loop'}, 'trivial_tags': ['plain'], 'vm_sample': 12, 'sigs': ['reply-does-not-belong-to-the-request-at-its-position', 'backend-received-bytes-that-are-not-requests', 'more-replies-than-requests', 'stray-bytes-after-the-last-reply', 'event-loop-stopped']}],
+        'suites': [{'name': 'loop', 'oracles': {'loop': 'o_loop'}, 'trivial_tags': ['plain'], 'vm_sample': 12, 'sigs': ['reply-does-not-belong-to-the-request-at-its-position', 'backend-received-bytes-that-are-not-requests', 'more-replies-than-requests', 'stray-bytes-after-the-last-reply', 'event-loop-stopped']}, {'name': 'replicas', 'oracles': {'loop': 'o_loop'}, 'trivial_tags': [], 'vm_sample': 4, 'sigs': ['reply-does-not-belong-to-the-request-at-its-position', 'more-replies-than-requests', 'stray-bytes-after-the-last-reply', 'backend-received-bytes-that-are-not-requests', 'event-loop-stopped']}],
         'rule': LOOP_RULE,
         'explanation': 'Theorems over ALL event histories: (1) on every backend connection the node has received the handshake then exactly the recorded requests in order, the awaiting queue is the recorded requests not yet answered, so the i-th reply is given to the fragment whose request was i-th on the wire, and every recorded request is the request of its own fragment (SInv + WInv, inductive over events); (2) a reply changes only the request of the fragment it is matched with and writes only to the owning client (frame theorem); (3) queued requests are owned by the client in whose queue they sit; with C01 the i-th reply a client receives is the reply of its i-th request. Two genuine defects repaired (early error reply with fragments already queued: late reply delivered for the next request; f.Done not checked before redirects). The session oracle checks every reply against the key convention c<client>r<seq> of the fake backends, which exposes any cross-delivery including one caused by sync.Pool reuse.',
         'assumptions': ['as C01', 'request-object recycling (sync.Pool) is not in the model: the model never reuses a request identifier; the correspondence run exercises the real pool and the session oracle would expose a reply written into a recycled object'],
@@ -221,6 +221,7 @@ PROPS = {
 # wrong node shows there)
 for _pid in ('C06', 'C07', 'C11', 'C17'):
     PROPS[_pid]['rule'] += ' | loop suite: ' + LOOP_RULE
+PROPS['C03']['rule'] += ' | replicas suite: as C04 (connections to replicas open with AUTH and READONLY: a two-step handshake whose answers may arrive in separate reads while requests are already in flight)'
 PROPS['C01']['rule'] += ' | pressure suite: as C10 (replies larger than the buffers to clients that read late; locally answered requests behind a backlog)'
 PROPS['C12']['rule'] += ' | loop suite: ' + LOOP_RULE
 PROPS['C09']['rule'] += ' | pressure suite: as C10; includes events that are readable and writable at once, delivered through the dispatcher of the reactor (eventloop.callback), to a client with replies piled up that has just emptied its socket'
